@@ -11,7 +11,7 @@ Open Scope list_scope.
 Section Ref.
   Variable M : bmodel.
   (* identity of the length placeholder's position variable (languages differ, any choice works) *)
-  Variable mk : packet -> nat.
+  Variable mk : string -> packet -> nat.
 
   Definition quote_byte (b : byte) : string :=
     if N.eqb b 92 then "'\\'" else String "'" (String (ascii_of_N b) (String "'" EmptyString)).
@@ -43,11 +43,11 @@ Section Ref.
     let le := le_of M in
     if f_rep f then [(i, EList (cfg_list_w M) le le (ref_elem path f))]
     else match f_attr f with
-         | ALen _ t => [(i, EMarkZero (mk p) (opt_w (ty_width (get_basic_type t))) le)]
+         | ALen _ t => [(i, EMarkZero (mk path p) (opt_w (ty_width (get_basic_type t))) le)]
          | ACheck alg t => [(i, ECheck alg (opt_w (ty_width (get_basic_type t))) le)]
          | _ => match f_len f with
                 | LTarget => [(i, ESpan (ref_elem path f) i);
-                              (i, EPatch (mk p) i (ref_len_w p) le (ref_len_w p) None)]
+                              (i, EPatch (mk path p) i (ref_len_w p) le (ref_len_w p) None)]
                 | _ => [(i, ref_elem path f)]
                 end
          end.
